@@ -362,6 +362,19 @@ def index_after_analyses(ctx):
             ZoneAnalysis(m.dialects, arch_spec=S).run_analysis(m)
             from vcommon import events
             events.run_events(m, (True,), S, plain="arch_spec" in dec)
+            # the library's own replaying interpreter draws the zones of the spec it is given: a reader too
+            from vcommon import stubs
+            stubs.install_matplotlib_stubs()
+            from bloqade.shuttle.visualizer import PathVisualizer
+            from bloqade.shuttle.visualizer.renderers.interface import RendererInterface
+
+            class _Quiet(RendererInterface):
+                def render_traps(self, traps, zone_id): pass
+                def render_path(self, pth): pass
+                def set_title(self, title): pass
+                def show(self): pass
+                def clear_paths(self): pass
+            PathVisualizer(m.dialects, arch_spec=S, renderer=_Quiet()).run(m, (True,), {})
     except Exception as e:
         ctx.obligation("the analyses run on a kernel over the probed layout", False, f"{type(e).__name__}: {e}"[:200])
     after = ask("after HintZone / ZoneAnalysis / execution used the layout")
